@@ -11,8 +11,8 @@ Descriptions (plain hashable tuples):
   parameter  (name, kind, type, nullable, has_default)
              name      the name callers use for it (the convention alias)
              kind      'pos' | 'varargs' | 'kwonly' | 'varkw' | 'hidden'
-             type      a class name of the lattice, 'Any', 'Lazy' (Lambda), or for
-                       hidden parameters 'Engine' | 'Context'
+             type      a class name of the lattice, 'Any', 'Lazy' (Lambda), 'Rule' (MappingRule:
+                       lazy, accepts only `name => expr`), or for hidden parameters 'Engine' | 'Context'
   overload   (tag, parameters, kind, no_kwargs)     kind 'function' | 'method' | 'ext'
   layer      (exclusive, overloads)                 layers are listed nearest first
   item       ('var', v)          eager expression whose value is the lattice value v
@@ -32,6 +32,7 @@ to name the mechanism of a disagreement (never to accept it).
 """
 
 SKIP = 'SKIP'
+LAZY = ('Lazy', 'Rule')                   # parameter types that keep their argument unevaluated
 UNKNOWN, NOMATCH, AMBIGUOUS = 'unknown', 'nomatch', 'ambiguous'
 
 # rules that can be switched off
@@ -142,7 +143,9 @@ def static_ok(lat, mapping, relaxed=()):
     """Type check of what is known before evaluation: constants, null, and a
     value (the receiver is one when the method call is resolved)."""
     for key, p, item in mapping:
-        if p[2] == 'Lazy' or item == SKIP or item[0] not in ('const', 'val'):
+        if p[2] == 'Rule' and (item == SKIP or item[0] != 'rule'):
+            return False                 # a mapping rule is recognised by its syntax
+        if p[2] in LAZY or item == SKIP or item[0] not in ('const', 'val'):
             continue
         if KEYWORD_UNCHECKED in relaxed and not isinstance(key, int) and p[1] != 'varkw':
             continue
@@ -153,7 +156,7 @@ def static_ok(lat, mapping, relaxed=()):
 
 def dynamic_ok(lat, mapping):
     """R5: the evaluated values are validated by the smart-type of each parameter."""
-    return all(p[2] == 'Lazy' or _value_ok(lat, p, item) for key, p, item in mapping)
+    return all(p[2] in LAZY or _value_ok(lat, p, item) for key, p, item in mapping)
 
 
 def more_specific(lat, m1, m2):
@@ -163,7 +166,7 @@ def more_specific(lat, m1, m2):
     res = False
     for k, p1, a in m1:
         t1, t2 = p1[2], d2[k][2]
-        if 'Lazy' in (t1, t2):
+        if t1 in LAZY or t2 in LAZY:
             continue
         if lat.strict_sub(t2, t1):
             return False
@@ -173,8 +176,8 @@ def more_specific(lat, m1, m2):
 
 
 def _label(lat, p, item):
-    if p[2] == 'Lazy':
-        return 'lazy'
+    if p[2] in LAZY:
+        return p[2].lower()
     if item == MARKER:
         return '<NoValue>'
     if item[0] in ('var', 'val'):
@@ -247,7 +250,7 @@ def resolve(lat, layers, call, relaxed=()):
             m = bind(o[1], eff, kwargs, relaxed)                           # R3
             if m is None or not static_ok(lat, m, relaxed):
                 continue
-            laziness.add(frozenset(k for k, p, a in m if p[2] == 'Lazy'))
+            laziness.add(frozenset(k for k, p, a in m if p[2] in LAZY))
             s.append((o, m))
         if s:
             surviving.append(s)
@@ -283,5 +286,5 @@ def valid_method(params):
     not lazy: the receiver is bound to it (rejected at registration otherwise)."""
     for p in params:
         if p[1] in ('pos', 'varargs'):
-            return p[2] != 'Lazy'
+            return p[2] not in LAZY
     return False
